@@ -2,8 +2,10 @@ package rules
 
 import (
 	"go/token"
+	"strings"
 
 	"gldapverif/an"
+	"gldapverif/report"
 
 	"golang.org/x/tools/go/ssa"
 )
@@ -618,14 +620,9 @@ func checkC12(c *Ctx) {
 		}
 	}
 	// ---- C12-listener-release
-	var listen *ssa.Call
-	for _, ci := range an.Calls(m.run) {
-		if call, ok := ci.(*ssa.Call); ok && an.CalleeIs(ci.Common(), "net", "Listen") {
-			listen = call
-		}
-	}
+	listen := c.listenCall(m.run)
 	if listen == nil {
-		R.Fatal("Run: net.Listen call not found")
+		R.Fatal("Run: no net.Listen* / tls.Listen call found")
 	} else {
 		// point where listen succeeded: the false successor of `err != nil` on Listen's error
 		okIfs := ifsOn(m.run, func(v ssa.Value) bool {
@@ -696,6 +693,23 @@ func checkC12(c *Ctx) {
 	}
 	R.Floor("C12-listener-release", 2)
 
+	// ---- C12-handlers-waited: "no handler is still running" rests on the requestsWg pairing of C08
+	{
+		tmp := &Ctx{P: c.P, R: report.New("tmp"), Tier: c.Tier}
+		checkC08(tmp)
+		n := 0
+		for _, o := range tmp.R.Obls {
+			if o.Rule == "C08-paired" || (o.Rule == "C08-sequence" && strings.Contains(o.Construct, "Wait")) {
+				n++
+				switch o.Status {
+				case report.Discharged:
+					R.OK("C12-handlers-waited", o.Construct, o.Pos, o.Detail)
+				default:
+					R.Fail("C12-handlers-waited", o.Construct, o.Pos, o.Detail)
+				}
+			}
+		}
+	}
 	// ---- C12-stop-order + C12-idempotent
 	c.checkStopOrder("C12-stop-order", m)
 	nErr := 0
